@@ -4,7 +4,7 @@
         static/provisioning Reconcile, disruption/staticdrift ComputeCommands,
         Provisioner.CreateNodeClaims/Create, Cluster.UpdateNodeClaim/DeleteNodeClaim,
         Cluster.MarkForDeletion/UnmarkForDeletion, queue.MarkPendingDisruption, static/deprovisioning
-     pkg/apis/v1/nodepool.go Limits.ExceededBy, scheduler.go subtractMax /
+     pkg/apis/v1/nodepool.go Limits.ExceededBy, scheduler.go subtractMax (as of 1e4ed4d16) /
      filterByRemainingResources / the limit part of addToNewNodeClaim, resources.Subtract /
      MaxResources                                                   (part B).
    Definitions only; proofs are in C03/Proofs.v.
@@ -311,12 +311,20 @@ Definition present (k : string) (caps : list rl) : list Z :=
 Definition max_of (k : string) (caps : list rl) : Z :=
   match present k caps with [] => 0 | v :: vs => fold_left Z.max vs v end.
 
-(* subtractMax(remaining, instanceTypes) over the instance types' base capacities *)
-Definition subtract_max (remaining : rl) (caps : list rl) : rl :=
+(* 1 node = 1000 milli-units *)
+Definition nodes : string := "nodes".
+Definition one_node : Z := 1000.
+
+(* subtractMax(remaining, instanceTypes) over the instance types' base capacities; since 1e4ed4d16 it
+   also takes one node off remaining["nodes"] when that key is present. [fixed = false] is the function
+   before that commit (F11). *)
+Definition subtract_max_gen (fixed : bool) (remaining : rl) (caps : list rl) : rl :=
   match caps with
   | [] => remaining
-  | _ => map (fun kv => (fst kv, snd kv - max_of (fst kv) caps)) remaining
+  | _ => map (fun kv => (fst kv, snd kv - max_of (fst kv) caps -
+                                  (if fixed && String.eqb (fst kv) nodes then one_node else 0))) remaining
   end.
+Definition subtract_max := subtract_max_gen true.
 
 (* filterByRemainingResources: an instance type stays iff no remaining quantity is below its capacity *)
 Definition viable (cap remaining : rl) : bool :=
@@ -328,8 +336,6 @@ Definition filter_by_remaining (caps : list rl) (remaining : rl) : list rl :=
    ([] = an offering without override) *)
 Record itype := mkIT { base : rl; ovs : list rl }.
 
-Definition nodes : string := "nodes".
-
 (* addToNewNodeClaim, limit part *)
 Definition nodes_exhausted (remaining : rl) : bool := has nodes remaining && (get nodes remaining =? 0).
 
@@ -339,19 +345,20 @@ Definition admissible (remaining : rl) (opts : list itype) : bool :=
   forallb (fun it => viable (base it) remaining) opts.
 
 (* one scheduling pass for one pool: the claims created in order, each with its option set *)
-Fixpoint run_pass (remaining : rl) (claims : list (list itype)) : option rl :=
+Fixpoint run_pass_gen (fixed : bool) (remaining : rl) (claims : list (list itype)) : option rl :=
   match claims with
   | [] => Some remaining
   | opts :: t =>
-      if admissible remaining opts then run_pass (subtract_max remaining (map base opts)) t else None
+      if admissible remaining opts
+      then run_pass_gen fixed (subtract_max_gen fixed remaining (map base opts)) t else None
   end.
+Definition run_pass := run_pass_gen true.
+Definition run_pass_prefix := run_pass_gen false.   (* the tree before the F11 fix *)
 
 (* Scheduler.remainingResources at the start of a pass: limits minus capacity of every active node *)
 Definition remaining0 (limits : rl) (existing : list rl) : rl := fold_left subtract existing limits.
 
-(* what the cluster state counts for a launched node: StateNode.Capacity() = capacity + {nodes: 1}
-   (1 node = 1000 milli-units) *)
-Definition one_node : Z := 1000.
+(* what the cluster state counts for a launched node: StateNode.Capacity() = capacity + {nodes: 1} *)
 Definition node_cap (cap : rl) : rl := (nodes, one_node) :: cap.
 
 (* the capacities a provider may launch for a claim: any option, any available offering *)
